@@ -4,6 +4,7 @@
 #include "hist_gen.hpp"
 
 // ---------------------------------------------------------------- C17: detected misuse (secure / debug builds)
+extern "C" int vf_forge_value(const void* block, int where, unsigned long long* value, unsigned long long* target) __attribute__((weak));   // harness/forge_helper.c (secure and debug variants)
 struct AreaOf { uintptr_t p; size_t used = 0, bsize = 0, fbs = 0, cap = 0; uintptr_t lo = 0, hi = 0; bool found = false; };
 static bool area_of_cb(const mi_heap_t*, const mi_heap_area_t* area, void* block, size_t, void* arg) {
   if (block) return true; AreaOf* a = (AreaOf*)arg; uintptr_t lo = (uintptr_t)area->blocks, hi = lo + area->reserved;
@@ -51,7 +52,9 @@ void Exec::op_misuse(const Op& op) {
 #endif
   }
   else if (kind == "overflow") {
-    if (!b.pristine || b.u != b.n || b.a > 16 || b.o != 0 || b.zmode || n == 0) { count(C_EXCLUDED); return; }
+    // (the premise is about the *requested* size: a usable size above it -- which a pristine block never has in a padding build -- does not make the byte at offset n the block's own)
+    // and an aligned entry point may over-allocate even for alignments <= 16, which moves the canary: there only blocks whose usable size is the request)
+    if (!b.pristine || b.u < b.n || b.a > 16 || (b.a > 1 && b.u != b.n) || b.o != 0 || b.zmode || n == 0) { count(C_EXCLUDED); return; }
     uint8_t v = (uint8_t)op.num("v", 1); if (v == 0 || v == 0xDE) v = 0x41;
     p[n] = v;                                             // the misuse: one foreign byte just past the requested size
     model_remove(s, true);
@@ -84,7 +87,11 @@ void Exec::op_misuse(const Op& op) {
     count(C_FREES);
     if (mi_errors[1] != efault0) fail_now("misuse-first-free-error", "op#%ld the legal free of %p reported EFAULT", opi, p);
     if (getenv("VF_DEBUG_FORGE")) { uint64_t w0; memcpy(&w0, p, 8); fprintf(stderr, "forge: p=%p n=%zu a=%zu o=%zu u=%zu area=[%zx,%zx) bsize=%zu used=%zu link=0x%llx x=0x%llx\n", p, n, b.a, b.o, b.u, ao.lo, ao.hi, ao.bsize, ao.used, (unsigned long long)w0, (unsigned long long)x); }
-    uint64_t w; memcpy(&w, p, 8); w ^= x; memcpy(p, &w, 8);   // the misuse: the free-list link is overwritten (always different from the stored value)
+    uint64_t w; memcpy(&w, p, 8); w ^= x;
+    // targeted variant: the link is made to decode to a chosen address outside the block's area (below the area in the same slice, just past its end,
+    // another segment, a small integer, the segment header); the value is computed with the page's keys by the white-box helper
+    { int where = (int)op.num("where", 0); unsigned long long v = 0, tgt = 0; if (where > 0 && !op.num("thread", 0) && vf_forge_value && vf_forge_value(p, where, &v, &tgt) && v != (w ^ x)) { w = v; flag(F_FORGE_TARGETED); } }
+    memcpy(p, &w, 8);   // the misuse: the free-list link is overwritten (always different from the stored value)
     expect_err = EFAULT;
     // allocate the class until p comes back (at most capacity allocations + slack): the forged link must be reported, not followed
     bool seen = same_class_probe(ao.cap + 8, true);
@@ -166,7 +173,7 @@ static Case gen_c17(Chooser& ch) {
       Op op("misuse"); op.u("s", (uint64_t)s);
       switch (ch.pick(3)) { case 0: op.s("kind", "dfree").u("between", ch.range(0, 8)); break;
         case 1: op.s("kind", "overflow").u("v", ch.range(1, 255)).u("thread", ch.chance(1, 3)); break;
-        default: op.s("kind", "forge").u("x", ch.bits(8) | 0x0001000100010001ull).u("thread", ch.chance(1, 4)); break; }   // bits in every 16-bit lane: cannot decode into the same page
+        default: { bool thr = ch.chance(1, 4); op.s("kind", "forge").u("x", ch.bits(8) | 0x0001000100010001ull).u("thread", thr); if (!thr && ch.chance(1, 2)) op.u("where", ch.range(1, 5)); break; } }   // bits in every 16-bit lane: cannot decode into the same page
       g.out.push_back(op); g.note_free(s); misuses++;
     } else g.step();
   }
